@@ -64,7 +64,7 @@ def mark(text, pos):
 def marked_parses(text, fn, pos):
     src = mark(text, pos)
     try:
-        ast.parse(src, fn)
+        ast.parse(src, fn or "<unknown>")
         return True
     except SyntaxError:
         return False
@@ -96,7 +96,7 @@ def check_lint(P, text, fn, label, part):
     out = []
     part.count('lint_calls')
     try:
-        ast.parse(text, fn)
+        ast.parse(text, fn or "<unknown>")
         err = None
     except SyntaxError as e:
         err = e
@@ -362,6 +362,37 @@ def unit_degenerate(item):
     return part
 
 
+NOFILE_TEXTS = ['from . import x\nx\n', 'from .m import y\ny.a\n', 'from .. import z\nz\n', 'from ...a.b import w\nw\n', 'from . import (\n', 'from .\n',
+                'import os\nfrom .sub.mod import *\nos\n', 'def f():\n    from . import q\n    return q\n']
+
+
+def unit_nofile(_):
+    """relative imports analysed without a file name (the default of the API), with an empty and with a relative file name,
+    from a current directory that is itself a package (holds an __init__.py)"""
+    part = Part()
+    root = tempfile.mkdtemp(prefix='c08n_')
+    old = os.getcwd()
+    try:
+        open(os.path.join(root, '__init__.py'), 'w').close()
+        os.makedirs(os.path.join(root, 'sub'))
+        open(os.path.join(root, 'sub', '__init__.py'), 'w').close()
+        open(os.path.join(root, 'm.py'), 'w').write('y = 1\n')
+        os.chdir(root)
+        for fn in (None, '', 'x.py', 'sub/x.py', './x.py'):
+            P = Project([root])
+            for i, text in enumerate(NOFILE_TEXTS):
+                part.count('evaluations')
+                part.count('texts')
+                cursors = list(all_cursors(text))
+                for sig, what, wit in run_text(P, text, fn, 'relative import with file name %r' % (fn,), part, cursors, {'kind': 'nofile', 'text': text, 'fn': fn}):
+                    part.violation(sig + ':no-or-relative-filename', what, wit)
+    finally:
+        os.chdir(old)
+        shutil.rmtree(root, ignore_errors=True)
+    part.outcome('nofile')
+    return part
+
+
 def make_project(files):
     root = tempfile.mkdtemp(prefix='c08_')
     for rel, content in files.items():
@@ -463,6 +494,8 @@ def replay(w):
         P = Project([w['root']])
         cursors = [tuple(w['pos'])] if w.get('pos') else []
         return [(s, wh) for s, wh, _ in run_text(P, w['text'], w['fn'], 'replay', part, cursors, {})]
+    if w['kind'] == 'nofile':
+        return [(v['sig'], v['what']) for v in unit_nofile(None).violations]
     if w['kind'] == 'project':
         p = unit_project(w['name'])
         return [(v['sig'], v['what']) for v in p.violations]
@@ -517,6 +550,7 @@ def run(ctx):
     step = 10
     units = [(unit_progs, (ctx.tier, lo, min(len(sp), lo + step))) for lo in range(0, len(sp), step)]
     units += [(unit_degenerate, d) for d in DEGENERATE]
+    units.append((unit_nofile, None))
     units += [(unit_project, n) for n in sorted(CYCLIC_PROJECTS)]
     units += [(unit_runtime, it) for it in runtime_class_texts()]
     repo = sorted([f for f in corpus.repo_files() if not f.endswith('umsgpack.py')], key=os.path.getsize)
